@@ -21,4 +21,14 @@ CHECKS["C20"] = {
     "note": "libm accuracy/monotonicity model and EXP/LOG axioms are trusted (A3); 'near machine precision' is established as per-branch conditioning, not as a full "
             "forward error bound; mixed operations with plain numbers are specified over reals only (their plain value must be representable).",
 }
+CHECKS["C06"] = {
+    "engine": "pyvc",
+    "technique": "contract-based deductive verification: ghost-trace postconditions (per-component time sums, adjoint-palindromic arrangement) on the real _step/__init__ bodies, z3",
+    "design_ref": "DESIGN.md section 7 C06",
+    "text": "Each integrator's _step (and SymmetricCompositionIntegrator.__init__ for symbolic real free coefficients, n<=5 quick / 8 thorough) is symbolically executed "
+            "against a contract stub of the system; postconditions: every Hamiltonian component is advanced by exactly time_step, the sub-step sequence is symmetric with "
+            "equal adjoint times, coefficients are palindromic and sum to one, step() passes dir*step_size; the constrained inner loop is cut by an invariant for every n_inner_step.",
+    "note": "'consistent + symmetric => order 2 / energy error O(eps^2)' is a cited theorem (A9), not proved; flows are contract stubs (exactness is C07); "
+            "number of free coefficients bounded (values unbounded); reals for floats.",
+}
 NOT_APPLICABLE = {}
